@@ -510,9 +510,11 @@ func c08ClassCall(d time.Duration, noisy bool) string {
 	}
 }
 
-// c08Observe runs the scenario once.  It returns the trace lines and whether the machine was too
-// noisy for the timing classes to mean anything.
-func c08Observe(sc *c08Scenario, probe *c08Probe) ([]verifsupport.Ev, bool, error) {
+// c08Observe runs the scenario once.  It returns the trace lines and whether the observation should
+// be repeated: the machine was too noisy for the timing classes to mean anything (probe), or some
+// instant is late in a way that a descheduled thread could explain (the probe cannot see a stall
+// that hits a single OS thread).  Lateness only counts when it shows in every attempt.
+func c08Observe(sc *c08Scenario, probe *c08Probe, attempt int) ([]verifsupport.Ev, bool, error) {
 	ctx, cancel := context.WithCancel(context.Background())
 	defer cancel()
 	payload, err := c08BuildPayload(ctx, sc.Kind, sc.Items)
@@ -628,13 +630,22 @@ func c08Observe(sc *c08Scenario, probe *c08Probe) ([]verifsupport.Ev, bool, erro
 	close(closed)
 	noise := probe.maxGap(wall0, end)
 	noisy := noise > c08NoiseMax
-	if noise > 400*time.Millisecond {
-		return nil, true, fmt.Errorf("machine stalled for %v during the scenario: no observation possible", noise)
-	}
 
+	suspect := !r
 	for i, s := range snaps {
+		if !s.called || !c08Whole(s.chunks, payload.items) {
+			if needOffer {
+				suspect = true
+			}
+		}
 		if !s.called {
 			continue
+		}
+		if conc >= len(raw) && c08ClassCall(s.first, noisy) == "late" {
+			suspect = true
+		}
+		if r && rErr != nil && s.complete && !s.anyErr && c08ClassT(s.last, noisy) == "before" {
+			suspect = true
 		}
 		evs = append(evs, c08Event{at: s.first, rank: 0, ev: verifsupport.Ev{
 			"sc": sc.Sc, "ev": "Call", "node": i + 1, "chunks": s.chunks, "at": c08ClassCall(s.first, noisy), "us": s.first.Microseconds()}})
@@ -648,6 +659,9 @@ func c08Observe(sc *c08Scenario, probe *c08Probe) ([]verifsupport.Ev, bool, erro
 		}
 	}
 	if r {
+		if sc.Sub != "immediate" && c08ClassT(rAt, noisy) == "after" {
+			suspect = true
+		}
 		ev := verifsupport.Ev{"sc": sc.Sc, "ev": "Return", "ok": rErr == nil, "at": c08ClassT(rAt, noisy), "us": rAt.Microseconds()}
 		if rErr != nil {
 			ev["error"] = rErr.Error()
@@ -666,12 +680,22 @@ func c08Observe(sc *c08Scenario, probe *c08Probe) ([]verifsupport.Ev, bool, erro
 	})
 	items := payload.items
 	lines := []verifsupport.Ev{{"sc": sc.Sc, "ev": "Reset", "sub": sc.Sub, "kind": sc.Kind, "conc": conc, "items": items,
-		"nodes": sc.Nodes, "T": c08T.Milliseconds(), "noiseUs": noise.Microseconds(), "noisy": noisy}}
+		"nodes": sc.Nodes, "T": c08T.Milliseconds(), "noiseUs": noise.Microseconds(), "noisy": noisy, "attempt": attempt + 1}}
 	for _, e := range evs {
 		lines = append(lines, e.ev)
 	}
 	lines = append(lines, verifsupport.Ev{"sc": sc.Sc, "ev": "Finish", "us": end.Sub(wall0).Microseconds()})
-	return lines, noisy, nil
+	return lines, noisy || suspect, nil
+}
+
+// c08Stalled tells whether the noise recorded in a scenario's Reset line is beyond anything the
+// ambiguous classes can absorb (a call that "never returned" would be meaningless).
+func c08Stalled(lines []verifsupport.Ev) bool {
+	if len(lines) == 0 {
+		return false
+	}
+	us, ok := lines[0]["noiseUs"].(int64)
+	return ok && us > 400000
 }
 
 // ---------------------------------------------------------------------------------------------
@@ -741,7 +765,7 @@ func TestVerifC08(t *testing.T) {
 					lines = c08Scatter(sc)
 				} else {
 					for attempt := 0; ; attempt++ {
-						l, noisy, err := c08Observe(sc, probe)
+						l, noisy, err := c08Observe(sc, probe, attempt)
 						if err != nil {
 							failMu.Lock()
 							failure = fmt.Errorf("scenario %d: %w", sc.Sc, err)
@@ -751,6 +775,11 @@ func TestVerifC08(t *testing.T) {
 						lines = l
 						if !noisy {
 							break
+						}
+						if attempt == 2 && c08Stalled(l) {
+							failMu.Lock()
+							failure = fmt.Errorf("scenario %d: the machine stalled for more than 400 ms in three attempts: no observation possible", sc.Sc)
+							failMu.Unlock()
 						}
 						failMu.Lock()
 						retries++
@@ -780,5 +809,5 @@ func TestVerifC08(t *testing.T) {
 	if failure != nil {
 		t.Fatal(failure)
 	}
-	t.Logf("c08: %d scenarios, %d noisy retries, %d emitted with ambiguous timing", len(scenarios), retries, noisyCount)
+	t.Logf("c08: %d scenarios, %d repeated observations, %d still noisy or late in the third attempt", len(scenarios), retries, noisyCount)
 }
